@@ -156,6 +156,9 @@ def analyse(prog, lines):
             if name in ("load", "loadfull"):
                 st = steps_in_cmd.get((t, k), 0) - nodeget_steps.get((t, k), 0)
                 max_load_steps = max(max_load_steps, st)
+                bound = 28 if name == "load" else 31
+                if st > bound:
+                    findings.append(("C08", "thread %d cmd %d (%s) took %d own steps (bound %d: Progress.K_load/K_load_full)" % (t, k, " ".join(cmd), st, bound)))
             # C04: swap returns the value it replaced
             if name == "swap" and addr is not None:
                 ws = writes_by_cmd.get((t, k), [])
